@@ -35,7 +35,8 @@ CONSTANTS P,                 \* number of features (blocks)
           K,                 \* Anderson memory (code: 5; the period only shifts)
           MaxIter, MaxEpochs,\* largest budgets explored
           M,                 \* objective levels 0..M
-          AAScope,           \* "ws": extrapolate w[ws] and write zeros elsewhere (AndersonCD, MultiTaskBCD)
+          AAScope,           \* "ws": extrapolate w[ws] and write zeros elsewhere (MultiTaskBCD; AndersonCD at the pinned
+                             \* commit) ; "ws_keep": extrapolate w[ws], keep the other coefficients (AndersonCD now)
                              \* "full": extrapolate the whole w (GroupBCD, GramCD) ; "none": no acceleration
           AAResetPerWS,      \* a fresh accelerator per working set
           WsCoversMarked,    \* ws_size >= number of inf-marked features (support and unpenalised)
@@ -149,8 +150,9 @@ AAStore ==
 AAExtrapolate ==
   /\ phase = "inner" /\ aaDue /\ aa = K + 1
   /\ aa' = 0 /\ aaDue' = FALSE
-  /\ LET scope == IF AAScope = "ws" THEN ws ELSE Feat
-         outside == supp \ scope                 \* support the extrapolated w drops (w_acc = 0 there)
+  /\ LET scope == IF AAScope \in {"ws", "ws_keep"} THEN ws ELSE Feat
+         kept == IF AAScope = "ws_keep" THEN supp \ scope ELSE {}     \* coefficients outside the scope that survive
+         outside == (supp \ scope) \ kept        \* support the extrapolated w drops (w_acc = 0 there)
      IN \/ \* rejected (or LinAlgError): nothing changes
            UNCHANGED <<supp, cons, infeas, obj, wopt, bopt, wver>>
         \/ \* accepted
@@ -160,7 +162,7 @@ AAExtrapolate ==
              /\ ValueEncodesConstraint => Bad = {}
              \* the guard saw a decrease; what it saw is the truth iff the buffers are truthful
              /\ (cons /\ outside = {} /\ Bad = {} /\ infeas = {}) => o < obj
-             /\ supp' = Snew
+             /\ supp' = Snew \cup kept
              /\ infeas' = Bad \cup (IF AAScope = "ws" THEN {} ELSE infeas \ scope)
              /\ cons' = (cons /\ outside = {})    \* Xw_acc extrapolates the FULL fit
              /\ obj' = (IF infeas' = {} THEN o ELSE INF)
